@@ -3,14 +3,17 @@
 Stages (each: TLC ComplexGen enumerates -> harness realises with real meshes -> TLC DiagJudge compares
 with the definitions in Diagnostics.tla)
   diag     every set of <= F oriented triangles over 4 (5) vertex names: NeedsRepair, SingularVertices,
-           InconsistentEdges, Orientable
+           InconsistentEdges, Orientable; FaceOrientations on those that are orientable manifolds
+  voxels   every non-empty subset of a 2x2x2 block of unit voxels, dual contouring on the half-unit grid with
+           Repair and Clip (the public route to ptrCoord.Clusters): the diagnostics of the result are clean
   diag2    every set of <= F directed segments over 4 names: model2d Manifold, InconsistentVertices
   flip     every subset of faces of a tetrahedron / octahedron / box flipped: RepairNormals restores
            the outward orientation, RepairNormalsMajority restores minority flips; vertex-jittered
            copies are merged back by Repair
   forest   every forest with <= N nodes as nested box shells in seeded corner placements:
            MeshToHierarchy (3-D and 2-D) returns that forest, loses / duplicates no face and
-           classifies probe points by the even-odd rule
+           classifies probe points by the even-odd rule; SelfIntersections is 0 on the nested shells and
+           positive once a shifted copy of a root shell is added
 """
 import json
 import os
@@ -21,7 +24,7 @@ from vlib import Infra
 GEN = "SPECIFICATION Spec\nCONSTANTS\n  Kind = \"%s\"\n  NV = %d\n  MaxF = %d\n  MaxN = %d\nCHECK_DEADLOCK FALSE\n"
 JUDGE = "SPECIFICATION Spec\nCHECK_DEADLOCK FALSE\n"
 CLAUSES = {"panic", "needs", "singular", "inconsistent", "orientable", "manifold2", "inconsistent2", "repair", "normals",
-           "nesting", "evenodd"}
+           "nesting", "evenodd", "orientations", "dcrepair", "selfint"}
 
 
 def stage(ctx, name, kind, nv, maxf, maxn, extra_args=(), sample=None):
@@ -41,9 +44,12 @@ def stage(ctx, name, kind, nv, maxf, maxn, extra_args=(), sample=None):
             fh.write(c + "\n")
     rpath = os.path.join(ctx.dir, "records-%s.ndjson" % name)
     spath = os.path.join(ctx.dir, "stats-%s.json" % name)
-    ctx.drv(["c11-diag", "in=" + cpath, "out=" + rpath, "stats=" + spath, "kind=" + kind, "seed=%d" % ctx.seed]
+    ctx.drv(["c11-diag", "in=" + cpath, "out=" + rpath, "stats=" + spath, "kind=" + ("diag" if kind == "pairs" else kind),
+             "seed=%d" % ctx.seed]
             + list(extra_args), timeout=1500)
     stats = json.load(open(spath))
+    if kind == "voxels" and stats.get("nonmanifold-before-repair", 0) == 0:
+        raise Infra("no voxel set is non-manifold before the repair: the dcrepair clause would be vacuous")
     j = ctx.tlc("J-" + name, "mesh/DiagJudge", JUDGE, data={"records.ndjson": rpath}, workers=16, timeout=3000, heap="10g")
     ctx.require_clean(j, "J-" + name)
     ctx.add_tlc_counts(j)
@@ -82,7 +88,10 @@ def run(ctx):
     ctx.build_harness()
     stage(ctx, "diag4", "diag", 4, 4 if quick else 8, 1)
     stage(ctx, "diag5", "diag", 5, 3 if quick else 4, 1, sample=None if quick else 12000)
+    # one or two faces over 6 names: the only complexes here with two groups of connected faces
+    stage(ctx, "diag6", "pairs", 6, 2, 1)
     stage(ctx, "diag2", "diag2", 4, 4 if quick else 5, 1)
     stage(ctx, "flip", "flip", 1, 12, 1, sample=600 if quick else 4096)
+    stage(ctx, "voxels", "voxels", 1, 8, 1)
     stage(ctx, "forest", "forest", 1, 1, 4 if quick else 5, extra_args=["reps=%d" % (2 if quick else 4)])
     ctx.extra["exhaustive"] = True
